@@ -520,7 +520,11 @@ func normBody(fd *ast.FuncDecl, structName, iterName string, member string, ifac
 		s = strings.ReplaceAll(s, member, "MEMBER")
 	}
 	if iface != "" {
-		s = strings.ReplaceAll(s, iface, "IFACE")
+		// only the type of the value parameter `v` (an `int`-valued kind must not rename `idx int`)
+		s = regexp.MustCompile(`\bv `+regexp.QuoteMeta(iface)+`\)`).ReplaceAllString(s, "v IFACE)")
+		if !strings.Contains(iface, " ") && len(iface) > 6 {
+			s = strings.ReplaceAll(s, iface, "IFACE")
+		}
 	}
 	return s
 }
